@@ -794,6 +794,9 @@ impl<'a> Dec<'a> {
         {
             let l = &mut self.layers[idx];
             l.p("pay_num", num);
+            if self.mode == Mode::Strict {
+                l.p("~hdr_pay_num", num);
+            }
             l.pb("fragmented", fragmented);
             l.pu("~pay_off", po);
             l.pu("~pay_len", pe - po);
@@ -938,6 +941,9 @@ impl<'a> Dec<'a> {
         {
             let l = &mut self.layers[idx];
             l.p("pay_num", num);
+            if self.mode == Mode::Strict {
+                l.p("~hdr_pay_num", num);
+            }
             l.pb("fragmented", fragmented);
             l.pu("~pay_off", po);
             l.pu("~pay_len", pe - po);
